@@ -550,8 +550,15 @@ func (m *Monitor) passOracles(op Op, s Sample) {
 	// C08: every node of a right-hand side discarded in this pass is invalidated in this pass and
 	// its function does not run in it -- not even before the swap
 	swapped := map[int]bool{}
+	reentered := map[int]bool{} // binds that (re-)entered the graph in this pass before their function ran
 	for _, ev := range s.Raw {
-		if ev.K == "EvBindFn" {
+		if ev.K == "EvNec" {
+			reentered[ev.N] = true
+		}
+		if ev.K == "EvBindFn" && !reentered[ev.N] {
+			// the property speaks of a bind whose INPUT CHANGES; a bind that was dropped and picked
+			// up again within the pass re-runs its function because it is new to the graph, and
+			// its earlier right-hand side may legitimately have recomputed before it was dropped
 			swapped[ev.N] = true
 		}
 	}
